@@ -121,7 +121,7 @@ Definition fun2core_case (i r : sexp) : verdict :=
                           | Ok mc =>
                               if cprog_eqb mc c
                               then VOk (fun2core_tags p ncmp (match exp with L _ => true | _ => false end))
-                              else VDiff (show (s_cprog mc)) (show (s_cprog c))
+                              else diff_window_b (show (s_cprog mc)) (show (s_cprog c))
                           end
                       end
                   end
